@@ -289,6 +289,20 @@ def run_check(pid, tier, replay=None):
         else:
             generic_search(prop, ctx, pid)
 
+    # 4b. obligations of one tie that a second, *complete* tie covers ---------------------------
+    # (only where a property has both ties for the same code and the second one is an exhaustive enumeration of a
+    # finite domain: C20's comm-state functions.  The property module decides and has to have run the complete
+    # enumeration without a single disagreement or oracle failure.)
+    superseded = []
+    if broken and hasattr(prop, 'second_tie') and not ctx.failures:
+        superseded = prop.second_tie(ctx, broken)
+        if superseded:
+            broken = [b for b in broken if b not in superseded]
+            ctx.notes.append('tie 1 (source text) does not check for the present formulation of the source: %s; the '
+                             'property is decided by the theorems about the model and the complete enumeration of the '
+                             'finite domain (tie 2), which found no difference'
+                             % ', '.join(b['name'] for b in superseded)[:1500])
+
     # 5. verdict -------------------------------------------------------------------------------
     new_failures, known_hits = [], {}
     for f in ctx.failures:
@@ -358,6 +372,8 @@ def run_check(pid, tier, replay=None):
             'known_findings_reproduced': sorted(known_hits),
             'search_ran': searched,
             'no_longer_checks': [b['name'] for b in broken][:40],
+            'superseded_by_complete_enumeration': [b['name'] for b in superseded][:40],
+            'translator_functions': info.get('functions'),
             'replays': replay_paths,
             'notes': ctx.notes[:20],
             'lean_wall_s': lean_wall,
